@@ -22,6 +22,9 @@ import (
 var Readers = []string{"fasta", "fastq", "bed3", "bed4", "bed5", "bed6", "bed12", "gff"}
 
 // FastqVariants are further FASTQ reader configurations (template type and quality encoding).
+// FastaVariants are further FASTA reader configurations (template type, line prefixes).
+var FastaVariants = []string{"fasta-q", "fasta-long-prefix", "fasta-two-prefixes"}
+
 var FastqVariants = []string{"fastq-plain", "fastq-solexa", "fastq-illumina1_3", "fastq-illumina1_5", "fastq-illumina1_8", "fastq-none"}
 
 type readFn func() (rec interface{}, isNil bool, err error)
@@ -30,6 +33,15 @@ func newReader(kind string, data []byte) readFn {
 	switch kind {
 	case "fasta":
 		r := fasta.NewReader(bytes.NewReader(data), linear.NewSeq("", nil, alphabet.DNA))
+		return func() (interface{}, bool, error) { s, err := r.Read(); return s, s == nil, err }
+	case "fasta-long-prefix", "fasta-two-prefixes":
+		// IDPrefix and SeqPrefix are exported options of the reader
+		r := fasta.NewReader(bytes.NewReader(data), linear.NewSeq("", nil, alphabet.DNA))
+		if kind == "fasta-long-prefix" {
+			r.IDPrefix = []byte(">>")
+		} else {
+			r.IDPrefix, r.SeqPrefix = []byte("##"), []byte("#")
+		}
 		return func() (interface{}, bool, error) { s, err := r.Read(); return s, s == nil, err }
 	case "fasta-q":
 		r := fasta.NewReader(bytes.NewReader(data), linear.NewQSeq("", nil, alphabet.DNA, alphabet.Sanger))
